@@ -45,6 +45,9 @@ def blocks(tier):
         nr = n if nref is None else nref
         for lo, hi in sc.ranges(n, max(1, 120 // nr)):
             B.append(("lab", shape, k, nref, lo, hi))
+    # --- long selector lists (up to every label) on arrays whose label ids are spread widely, integer and float dtypes
+    for lo, hi in sc.ranges(len(WIDE_REFS) * len(WIDE_PREDS), 4):
+        B.append(("wide", lo, hi))
     # --- masks without selection
     mask_scopes = [((6,), MASK_DTYPES), ((2, 3), MASK_DTYPES), ((2, 2, 2), ("bool", "uint8"))]
     if tier == "thorough":
@@ -67,6 +70,14 @@ def blocks(tier):
         for lo, hi in sc.ranges(n, 16):
             B.append(("cl", shape, nref, lo, hi))
     return B
+
+
+WIDE_N = 48
+# every label occurs on several voxels (instances are not single voxels), up to 24 distinct labels per array
+WIDE_PREDS = [[(i * 7 + k) % 24 + 1 for i in range(WIDE_N)] for k in (0, 5)] + [[(i // 2) + 1 for i in range(WIDE_N)], [(i // 4) % 12 + 1 for i in range(WIDE_N)], [1 + (i % 3) * 11 for i in range(WIDE_N)]]
+WIDE_REFS = [[(i // 12) + 1 for i in range(WIDE_N)], [1] * 24 + [0] * 24, [(i % 4) + 1 for i in range(WIDE_N)]]
+WIDE_SCALES = (1, 1000, 65537)
+WIDE_DTYPES = ("int64", "uint32", "float32", "float64")
 
 
 def _ref_indices(n, nref):
@@ -92,6 +103,9 @@ def run_block(block, acc):
         for i in range(lo, hi):
             for j in range(n):
                 run_case({"kind": "mask", "shape": list(shape), "dtypes": list(dts), "pi": i, "ri": j}, acc)
+    elif kind == "wide":
+        for q in range(block[1], block[2]):
+            run_case({"kind": "wide", "p": q % len(WIDE_PREDS), "r": q // len(WIDE_PREDS)}, acc)
     elif kind == "rle":
         _, s, lo, hi = block
         for i in range(lo, hi):
@@ -259,6 +273,42 @@ def run_case(case, acc):
             _judge_counts(acc, {**case, "dtypes": [dt]}, f"rle mask dtype={dt}", nX, nY, nI, got, "rle_mask")
     elif kind == "cl":
         _cl_case(case, acc)
+    elif kind == "wide":
+        _wide_case(case, acc)
+
+
+def _wide_case(case, acc):
+    """selector lists of every length 1..24 (prefixes and suffixes of the label set, every second label) on 24-voxel arrays,
+    label ids multiplied by 1 / 1000 / 65537, integer and float label arrays"""
+    bp, br = WIDE_PREDS[case["p"]], WIDE_REFS[case["r"]]
+    acc.case("wide", case["p"], case["r"])
+    labels = sorted(set(bp))
+    sels = []
+    for L in range(1, len(labels) + 1):
+        sels.append(labels[:L])
+        sels.append(labels[-L:])
+    sels.append(labels[::2])
+    sels.append(labels[1::2] + [97, 98, 99])
+    sels.append(labels + labels[:3])  # duplicates in the list
+    if acc.evaluations % 5 == 1:
+        acc.sample({"kind": "wide", "pred_labels": bp, "ref_labels": br, "scales": WIDE_SCALES, "dtypes": WIDE_DTYPES, "n_selector_lists": len(sels)})
+    for scale in WIDE_SCALES:
+        for dt in WIDE_DTYPES:
+            if dt == "float32" and scale == 65537:
+                continue  # ids beyond 2**24 are not exactly representable in float32
+            P = (np.array(bp, dtype=np.int64) * scale).astype(dt)
+            R = (np.array(br, dtype=np.int64) * scale).astype(dt)
+            for rl in sorted(set(br) - {0})[:2]:
+                X = frozenset(i for i, v in enumerate(br) if v == rl)
+                for sel in sels:
+                    Y = frozenset(i for i, v in enumerate(bp) if v in set(sel))
+                    nX, nY, nI = len(X), len(Y), len(X & Y)
+                    form = [int(v * scale) for v in sel]
+                    got = {m: _call(acc, case, m, lambda m=m: Metric[m](R, P, int(rl * scale), form)) for m in METS}
+                    acc.state("wide", case["p"], case["r"], scale, rl, tuple(sel))
+                    if len(sel) >= 8 and 0 < nI:
+                        acc.nontriv("wide", case["p"], case["r"], rl, tuple(sel))
+                    _judge_counts(acc, {**case, "scale": scale, "dtype": dt, "ref_label": rl, "sel": sel}, f"wide ids x{scale} dtype={dt} ref={rl} list of {len(sel)} labels", nX, nY, nI, got, "long_list")
 
 
 _SKEL: dict = {}
